@@ -27,7 +27,7 @@ structure ProcState where
   det : Bool := true
 deriving Inhabited
 
-abbrev ProcM := StateT ProcState (Except Err)
+abbrev ProcM := ExceptT Err (StateM ProcState)
 
 def tempBase : Nat := 9000000
 
@@ -60,14 +60,16 @@ def showPay (s : ProcState) : Nat → Bool := fun oid =>
   (s.st.payload oid).isSome || s.sq.hasPayload oid
 
 /-- `engine.get_join_identity_payload()` / `get_doomed_payload(columns)`. -/
-def trivialPayload (e : Engine) (joinIdentity : Bool) : ProcM AnyPayload := do
+def trivialPayload (e : Engine) (joinIdentity : Bool) (cols : Cols) : ProcM AnyPayload := do
   match e.kind with
   | .iter => return .iter (.mapping [] (if joinIdentity then [Row.empty] else []))
   | .sql =>
     let s ← get
     let idx := s.sq.tables.length
+    let name := s!"trivial_{idx}"
     set { s with sq := { s.sq with tables := s.sq.tables ++ [if joinIdentity then [Row.empty] else []] } }
-    return .sql { frm := .table s!"trivial_{idx}" 0 idx, wh := if joinIdentity then [] else [.lit false] }
+    return .sql { frm := .table name 0 idx, wh := if joinIdentity then [] else [.lit false],
+                  avail := if joinIdentity then [] else cols.map (fun t => (t, SqlExpr.col name t)) }
 
 /-- Evaluate a relation in its own engine only (what a hook is allowed to do). -/
 def evalSingle (σ : Leaves) (r : Rel) : ProcM (List Row) := do
@@ -131,6 +133,16 @@ def tempRoot (r : Rel) : ProcM Rel := do
   | .select 0 a b c d e f g h => return .select (← freshTemp) a b c d e f g h
   | _ => return r
 
+/-- Give the (unique) freshly created `Materialization` named `name` the allocation id `id`,
+wherever the value occurs in the result (a `Select` holds its skip target twice). -/
+def setMatOid (name : String) (id : Nat) : Rel → Rel
+  | .leaf a b c d e f g h => .leaf a b c d e f g h
+  | .unary op t c => .unary op (setMatOid name id t) c
+  | .binary op l r c => .binary op (setMatOid name id l) (setMatOid name id r) c
+  | .mat oid n t => if oid == 0 && n == name then .mat id n t else .mat oid n (setMatOid name id t)
+  | .transfer oid d t => .transfer oid d (setMatOid name id t)
+  | .select oid a b c d e k g t => .select oid a b c d e (setMatOid name id k) g (setMatOid name id t)
+
 /-- `Select.reapply(target)`. -/
 def reapplySelect (target : Res) (_orig : Rel) : ProcM Res := do
   match target with
@@ -143,6 +155,30 @@ def reapplySelect (target : Res) (_orig : Rel) : ProcM Res := do
       let r := c.get t
       if r.isSelect then return .new r else throw .assertion
 
+/-- `while payload_holder.payload is None and isinstance(payload_holder, MarkerRelation): ...` -/
+def payloadThrough (s : ProcState) : Rel → Option AnyPayload
+  | .mat oid n t =>
+    match s.payloadOf (.mat oid n t) with
+    | some p => some p
+    | none => payloadThrough s t
+  | .transfer oid d t =>
+    match s.payloadOf (.transfer oid d t) with
+    | some p => some p
+    | none => payloadThrough s t
+  | .select oid a b c d e f g t =>
+    match s.payloadOf (.select oid a b c d e f g t) with
+    | some p => some p
+    | none => payloadThrough s t
+  | r => s.payloadOf r
+
+/-- The `Materialization` found by looking through non-materialization marker wrappers
+(`attach_payload` on anything else raises `TypeError`). -/
+def newMatOid : Rel → Option Nat
+  | .mat oid _ _ => some oid
+  | .transfer _ _ t => newMatOid t
+  | .select _ _ _ _ _ _ _ _ t => newMatOid t
+  | _ => none
+
 /-- `Processor._process_recursive(original, materialize_as)`. -/
 def processRec (σ : Leaves) : Nat → Rel → Option String → ProcM (Res × Bool)
   | 0, _, _ => throw .fuel
@@ -152,9 +188,9 @@ def processRec (σ : Leaves) : Nat → Rel → Option String → ProcM (Res × B
     | .transfer _ dest target =>
       let (newTarget, payload) ←
         if orig.isJoinIdentity then do
-          pure (Res.same, ← trivialPayload dest true)
+          pure (Res.same, ← trivialPayload dest true orig.columns)
         else if orig.maxRows == some 0 then do
-          pure (Res.same, ← trivialPayload dest false)
+          pure (Res.same, ← trivialPayload dest false orig.columns)
         else do
           let (nt, _) ← processRec σ fuel target none
           let p ← hookTransfer σ (nt.get target) dest matAs
@@ -172,7 +208,7 @@ def processRec (σ : Leaves) : Nat → Rel → Option String → ProcM (Res × B
           match materialize (← get).store defaultFuel newTarget name with
           | .error e => throw e
           | .ok r =>
-            let res ← tempRoot (r.get newTarget)
+            let res ← tempRoot (setMatOid name (← freshTemp) (r.get newTarget))
             pure (Res.new res)
       match result with
       | .new res =>
@@ -183,9 +219,9 @@ def processRec (σ : Leaves) : Nat → Rel → Option String → ProcM (Res × B
       | .same => pure ()
       -- `payload = new_target.payload` may be `None` (e.g. a payload-less `Select` wrapper)
       let payload : Option AnyPayload ←
-        if persisted then pure ((← get).payloadOf newTarget)
-        else if orig.isJoinIdentity then do pure (some (← trivialPayload target.engine true))
-        else if orig.maxRows == some 0 then do pure (some (← trivialPayload target.engine false))
+        if persisted then pure (payloadThrough (← get) newTarget)
+        else if orig.isJoinIdentity then do pure (some (← trivialPayload target.engine true orig.columns))
+        else if orig.maxRows == some 0 then do pure (some (← trivialPayload target.engine false orig.columns))
         else do pure (some (← hookMaterialize σ newTarget name))
       if let some p := payload then
         modify (fun s => s.attach oid p)
@@ -193,12 +229,14 @@ def processRec (σ : Leaves) : Nat → Rel → Option String → ProcM (Res × B
       | .same => return (.same, true)
       | .new res =>
         -- `result.attach_payload(payload)`: the result must be a payload-less marker relation
-        match res with
-        | .mat o .. | .transfer o .. | .select o .. =>
+        -- attach to the new Materialization itself, looking through wrapper markers
+        match newMatOid res with
+        | some o =>
           if let some p := payload then
+            if ((← get).st.payload o).isSome || (← get).sq.hasPayload o then throw .type
             modify (fun s => s.attach o p)
           return (.new res, true)
-        | _ => throw .type
+        | none => return (.new res, true)      -- `if isinstance(new_materialization, Materialization)`
     | .select .. =>
       let target := match orig with
         | .select _ _ _ _ _ _ _ _ t => t
@@ -233,11 +271,11 @@ def processRec (σ : Leaves) : Nat → Rel → Option String → ProcM (Res × B
           | .ok b => return (.new (b.get l' r'), false)
     | .leaf .. => throw .assertion        -- a leaf without payload: the match is not exhaustive
 
-/-- `Processor.process(relation)`. -/
+/-- `Processor.process(relation)`; the state is returned also when processing raises (payloads
+attached before the exception stay attached). -/
 def processTop (σ : Leaves) (st : ExecState) (sq : SqlState) (t : Rel) :
-    Except Err (Res × ProcState) :=
-  match (processRec σ defaultFuel t none).run { st := st, sq := sq } with
-  | .error e => .error e
-  | .ok ((r, _), s) => .ok (r, s)
+    Except Err Res × ProcState :=
+  let (r, s) := (processRec σ defaultFuel t none).run.run { st := st, sq := sq }
+  (r.map (·.1), s)
 
 end DafRel
